@@ -100,13 +100,16 @@ def run(case: dict, ctx) -> dict:
     cnt = res["cnt"]
     rng = rng_for(ctx.seed, ID, case["i"])
     cipher, mac, kdf = case["cipher"], case["mac"], case["kdf"]
-    ks = w.KEY_SIZES[cipher]
+    # the configuration key has its own cipher, independent of the one wrapping it
+    data_cipher = cipher if case["i"] % 3 == 0 else rng.choice(CIPHERS)
+    ks = w.KEY_SIZES[data_cipher]
     text, model = gen_config(rng, case["len"])
     phrase = rng.choice(PHRASES)
     rounds = rng.choice([1, 2, 10, 1000, rng.randrange(1, 2001)])
     salt = bytes(rng.randrange(256) for _ in range(rng.choice([8, 16, 32, rng.randrange(8, 33)])))
     data_key = bytes(rng.randrange(256) for _ in range(ks))
-    blob, p = w.phrase_pair(rng, phrase, data_key, cipher=cipher, mac=mac, kdf=kdf, rounds=rounds, salt=salt, ident=rng.choice(["id1", "a b/c", "ключ"]))
+    blob, p = w.phrase_pair(rng, phrase, data_key, cipher=cipher, mac=mac, kdf=kdf, rounds=rounds, salt=salt, ident=rng.choice(["id1", "a b/c", "ключ"]),
+                            data_cipher=data_cipher)
     # decoy pairs that do not match the passphrase
     decoys = []
     for j in range(rng.choice([0, 0, 1, 3])):
@@ -135,6 +138,7 @@ def run(case: dict, ctx) -> dict:
     o = call(v.unlock_with_phrase, phrase)
     cnt["roundtrips"] = 1
     combo = f"{cipher}/{mac}/{kdf}"
+    cnt["wrapping_cipher_differs_from_data_cipher"] = int(cipher != data_cipher)
     if not o.ok:
         res["viol"].append({"what": f"unlock with the correct passphrase failed: {o.brief()}", "mech": MECH,
                             "detail": {"combo": combo, "rounds": rounds, "salt_len": len(salt), "text_len": len(text.encode()), "phrase": phrase, "tb": o.tb}})
@@ -147,13 +151,24 @@ def run(case: dict, ctx) -> dict:
         lost = [k for k in before if k not in v.attr]
         if lost:
             res["viol"].append({"what": "entries visible before unlock disappeared", "mech": MECH, "detail": {"lost": lost[:3]}})
+    def again(label):
+        # the very same text parsed and unlocked again in this process: no state may be carried between unlocks
+        vr = VMX.parse(make(where=where))
+        orr = call(vr.unlock_with_phrase, phrase)
+        cnt["repeat_roundtrips"] = cnt.get("repeat_roundtrips", 0) + 1
+        if not orr.ok or any(vr.attr.get(k_) != val for k_, val in model.items()):
+            res["viol"].append({"what": f"unlocking the same encrypted text again ({label}) does not give the original entries", "mech": MECH,
+                                "detail": {"combo": combo, "outcome": orr.brief()}})
+
+    if not res["viol"]:
+        again("immediately")
     # ---- the same locator parameters (id, KDF, cipher, rounds, passphrase) with other salts, in this same process:
     # the derived key is a function of the salt too
     for salt2 in (bytes(rng.randrange(256) for _ in range(len(salt))), salt[:-1] + bytes([salt[-1] ^ 0x01]), salt + b"\x00"):
         if res["viol"]:
             break
         dk2 = bytes(rng.randrange(256) for _ in range(ks))
-        blob2, p2 = w.phrase_pair(rng, phrase, dk2, cipher=cipher, mac=mac, kdf=kdf, rounds=rounds, salt=salt2, ident=p["ident"])
+        blob2, p2 = w.phrase_pair(rng, phrase, dk2, cipher=cipher, mac=mac, kdf=kdf, rounds=rounds, salt=salt2, ident=p["ident"], data_cipher=data_cipher)
         data2 = w.seal(dk2, text.encode(), mac, bytes(rng.randrange(256) for _ in range(16)))
         v3 = VMX.parse(w.vmx_text(w.keysafe_text([w.pair_text(blob2, p2)]), data2, plain_lines))
         o3 = call(v3.unlock_with_phrase, phrase)
@@ -206,7 +221,10 @@ def run(case: dict, ctx) -> dict:
                                                "plaintext_len": len(text.encode()) if field == "encryption.data" else None}})
             elif vt.attr != snap:
                 res["viol"].append({"what": "visible configuration changed although unlock failed", "mech": "vmx.auth", "detail": {"combo": combo, "field": field, "byte": pos}})
+    if not res["viol"]:
+        again("after the rejected attempts")
     res["sets"]["combinations"] = [combo]
+    res["sets"]["wrapping_vs_data_cipher"] = [f"{cipher}/{data_cipher}"]
     res["sets"]["tamper_classes"] = sorted(classes)
     res["sets"]["plaintext_len_mod16"] = [len(text.encode()) % 16]
     res["nontrivial"] = True
